@@ -98,7 +98,7 @@ func main() {
 	})
 }
 
-func plan(tier string, seed int64) []run.Batch {
+func planBase(tier string, seed int64) []run.Batch {
 	n := 18
 	if tier == "thorough" {
 		n = 60
@@ -2276,7 +2276,7 @@ func (s *st) fullRounds(dir string, sample []variant, offset uint32) {
 
 // ---------------------------------------------------------------- child
 
-func child(b run.Batch, r *ev.Result) {
+func childBase(b run.Batch, r *ev.Result) {
 	if b.Kind == "race" {
 		raceChild(b, r)
 		return
